@@ -498,19 +498,13 @@ class EndpointResponseHandlerGenerator:
             if default_response.content and strategy.return_type != "None":
                 self._write_strategy_based_return(writer, strategy, context)
             else:
-                context.add_import(f"{context.core_package_name}.exceptions", "HTTPError")
-                writer.write_line(
-                    'raise HTTPError(response=response, message="Default error", status_code=response.status_code)'
-                )
+                self._write_range_aware_raise(writer, context, "Default error")
             writer.dedent()
         else:
             # Final catch-all
             writer.write_line("case _:")
             writer.indent()
-            context.add_import(f"{context.core_package_name}.exceptions", "HTTPError")
-            writer.write_line(
-                'raise HTTPError(response=response, message="Unhandled status code", status_code=response.status_code)'
-            )
+            self._write_range_aware_raise(writer, context, "Unhandled status code")
             writer.dedent()
 
         writer.dedent()  # End of match statement
@@ -520,6 +514,19 @@ class EndpointResponseHandlerGenerator:
         context.add_import("typing", "NoReturn")
         writer.write_line("raise RuntimeError('Unexpected code path')  # pragma: no cover")
         writer.write_line("")  # Add a blank line for readability
+
+    def _write_range_aware_raise(self, writer: CodeWriter, context: RenderContext, message: str) -> None:
+        """Raise ClientError for 4xx, ServerError for 5xx and the base HTTPError for any other status."""
+        for lower, upper, error_class in ((400, 500, "ClientError"), (500, 600, "ServerError")):
+            context.add_import(f"{context.core_package_name}.exceptions", error_class)
+            writer.write_line(f"if {lower} <= response.status_code < {upper}:")
+            writer.indent()
+            writer.write_line(
+                f'raise {error_class}(response=response, message="{message}", status_code=response.status_code)'
+            )
+            writer.dedent()
+        context.add_import(f"{context.core_package_name}.exceptions", "HTTPError")
+        writer.write_line(f'raise HTTPError(response=response, message="{message}", status_code=response.status_code)')
 
     def _write_strategy_based_return(
         self,
